@@ -493,19 +493,23 @@ fn graph_from_json(v: &Value) -> G {
     }
 }
 
-fn enumerate_scope<L: LitName>(sc: &Scope, tier: Tier, budget: &Budget, report: &mut Report) {
+/// Number of gate input assignments of a scope.
+fn scope_size(sc: &Scope) -> usize {
+    let nl = scope_literals(sc.i + sc.l + sc.g).len();
+    (nl * nl).pow(sc.g as u32)
+}
+
+/// Check one gate input assignment of a scope with every root, order, numbering and configuration.
+fn check_assignment<L: LitName>(sc: &Scope, tier: Tier, idx: usize, acc: &mut Report) {
     let nvars = sc.i + sc.l + sc.g;
     let lits = scope_literals(nvars);
     let nl = lits.len();
-    // gate input assignments: every pair per gate
     let per_gate = nl * nl;
-    let total_assign = per_gate.pow(sc.g as u32);
     let gate_var = |k: usize| 1 + sc.i + sc.l + k;
     let perms = permutations(sc.g);
-    // numbering variants of the variables
     let nv = nvars.max(1);
-    let numberings: Vec<Box<dyn Fn(usize) -> usize + Sync>> = {
-        let mut v: Vec<Box<dyn Fn(usize) -> usize + Sync>> = vec![Box::new(|x| x)];
+    let numberings: Vec<Box<dyn Fn(usize) -> usize>> = {
+        let mut v: Vec<Box<dyn Fn(usize) -> usize>> = vec![Box::new(|x| x)];
         // reversal of the defined variables (the undefined one stays on top), with a gap
         v.push(Box::new(move |x| if x <= nv { 2 * (nv + 1 - x) } else { 2 * x + 1 }));
         if tier == Tier::Thorough || sc.g <= 1 {
@@ -515,87 +519,58 @@ fn enumerate_scope<L: LitName>(sc: &Scope, tier: Tier, budget: &Budget, report: 
         v
     };
     let full_perms: Vec<Vec<usize>> = if nvars <= 3 || (tier == Tier::Thorough && nvars <= 4 && sc.g <= 1) { permutations(nvars) } else { vec![] };
-    let total = mc_core::par::par_fold(
-        total_assign,
-        mc_core::threads(),
-        Report::new,
-        |acc, idx| {
-            if budget.expired() {
-                if acc.caps.is_empty() {
-                    acc.cap(format!("C12: time budget hit inside scope I={} L={} G={}", sc.i, sc.l, sc.g));
+    // decode gate inputs
+    let mut x = idx;
+    let mut gates = Vec::new();
+    for k in 0..sc.g {
+        let p = x % per_gate;
+        x /= per_gate;
+        gates.push((2 * gate_var(k), lits[p / nl], lits[p % nl]));
+    }
+    let base = G { max_var: nvars + 1, inputs: (1..=sc.i).map(|v| 2 * v).collect(), latches: vec![], gates, outputs: vec![], bad: vec![], constraints: vec![], fairness: vec![], justice: vec![] };
+    acc.states += 1;
+    // roots: every literal r, (a) in the output list only, (b) in every list and as every latch's next state
+    for (ri, &r) in lits.iter().enumerate() {
+        for mode in 0..2 {
+            if mode == 0 && ((sc.l > 0 && sc.g > 1) || sc.g > 2) {
+                continue; // the richer mode (b) subsumes (a) there; keeps the product in check
+            }
+            let mut g = base.clone();
+            let other = lits[(ri + 3) % nl];
+            g.latches = (0..sc.l).map(|k| (2 * (1 + sc.i + k), if mode == 1 { r } else { other }, [Some(false), Some(true), None][(ri + k) % 3])).collect();
+            g.outputs = vec![r];
+            if mode == 1 {
+                g.bad = vec![r ^ 1];
+                g.constraints = vec![r];
+                g.fairness = vec![other, r];
+                g.justice = vec![vec![r], vec![], vec![other, r ^ 1]];
+            }
+            // gate list orders x variable numberings
+            for (pi, perm) in perms.iter().enumerate() {
+                if sc.g > 2 && pi != 0 && pi != perms.len() - 1 {
+                    continue;
                 }
-                return;
-            }
-            // decode gate inputs
-            let mut x = idx;
-            let mut gates = Vec::new();
-            for k in 0..sc.g {
-                let p = x % per_gate;
-                x /= per_gate;
-                gates.push((2 * gate_var(k), lits[p / nl], lits[p % nl]));
-            }
-            let base = G {
-                max_var: nvars + 1,
-                inputs: (1..=sc.i).map(|v| 2 * v).collect(),
-                latches: vec![],
-                gates,
-                outputs: vec![],
-                bad: vec![],
-                constraints: vec![],
-                fairness: vec![],
-                justice: vec![],
-            };
-            acc.states += 1;
-            // roots: every literal r, (a) in the output list only, (b) in every list and as every latch's next state
-            for (ri, &r) in lits.iter().enumerate() {
-                for mode in 0..2 {
-                    if mode == 0 && ((sc.l > 0 && sc.g > 1) || sc.g > 2) {
-                        continue; // the richer mode (b) subsumes (a) there; keeps the product in check
+                let mut gp = g.clone();
+                gp.gates = perm.iter().map(|&k| g.gates[k]).collect();
+                for (ni, num) in numberings.iter().enumerate() {
+                    if sc.g > 2 && ni != 1 {
+                        continue;
                     }
-                    let mut g = base.clone();
-                    let other = lits[(ri + 3) % nl];
-                    g.latches = (0..sc.l).map(|k| (2 * (1 + sc.i + k), if mode == 1 { r } else { other }, [Some(false), Some(true), None][(ri + k) % 3])).collect();
-                    g.outputs = vec![r];
-                    if mode == 1 {
-                        g.bad = vec![r ^ 1];
-                        g.constraints = vec![r];
-                        g.fairness = vec![other, r];
-                        g.justice = vec![vec![r], vec![], vec![other, r ^ 1]];
+                    let h = renumber_vars(&gp, num.as_ref());
+                    if 2 * h.max_var + 1 > L::MAX_CODE {
+                        continue;
                     }
-                    // gate list orders x variable numberings
-                    for (pi, perm) in perms.iter().enumerate() {
-                        if sc.g > 2 && pi != 0 && pi != perms.len() - 1 {
-                            continue;
-                        }
-                        let mut gp = g.clone();
-                        gp.gates = perm.iter().map(|&k| g.gates[k]).collect();
-                        for (ni, num) in numberings.iter().enumerate() {
-                            if sc.g > 2 && ni != 1 {
-                                continue;
-                            }
-                            let h = renumber_vars(&gp, num.as_ref());
-                            if 2 * h.max_var + 1 > L::MAX_CODE {
-                                continue;
-                            }
-                            check_graph::<L>(&h, acc, "scope");
-                        }
-                    }
-                    // every permutation of the variable indices (small scopes)
-                    if mode == 1 && ri % 4 == 0 {
-                        for p in &full_perms {
-                            let h = renumber_vars(&g, &|x| if x >= 1 && x <= nvars { p[x - 1] + 1 } else { x });
-                            check_graph::<L>(&h, acc, "perm");
-                        }
-                    }
+                    check_graph::<L>(&h, acc, "scope");
                 }
             }
-        },
-        |a, b| a.merge(b),
-    );
-    let capped = !total.caps.is_empty();
-    report.merge(total);
-    if !capped {
-        report.completed.push(format!("<{}> all graphs with {} inputs, {} latches, {} gates: {} gate input assignments over {} literals x every root literal x root modes x gate orders x numberings x 8 option combinations", L::NAME, sc.i, sc.l, sc.g, total_assign, nl));
+            // every permutation of the variable indices (small scopes)
+            if mode == 1 && ri % 4 == 0 {
+                for p in &full_perms {
+                    let h = renumber_vars(&g, &|x| if x >= 1 && x <= nvars { p[x - 1] + 1 } else { x });
+                    check_graph::<L>(&h, acc, "perm");
+                }
+            }
+        }
     }
 }
 
@@ -632,7 +607,7 @@ fn redefinitions<L: LitName>(report: &mut Report) {
         report.states += 1;
         check_graph::<L>(g, report, what);
     }
-    report.completed.push(format!("<{}> {} redefinition variants x 8 option combinations", L::NAME, graphs.len()));
+    report.count("redefinition_variants", graphs.len() as u64);
 }
 
 /// Deep shapes: recursion would overflow a small stack, the explicit stack must not; linear time.
@@ -721,32 +696,87 @@ fn deep_shapes(tier: Tier, report: &mut Report) {
             }
         }
     }
-    report.completed.push(format!("deep shapes (left/right/xx chain, chain closed into a cycle, chain ending in an undefined literal) at depths {depths:?} on a 256 KiB stack"));
+    report.count("deep_shape_runs", (depths.len() * 5) as u64);
 }
 
-fn run_lit<L: LitName>(tier: Tier, budget: &Budget, report: &mut Report, max_gates: usize) {
-    redefinitions::<L>(report);
+#[derive(Clone, Debug)]
+enum Unit {
+    Deep,
+    Redef(&'static str),
+    /// (literal type, inputs, latches, gates, first assignment index, number of assignments)
+    Block(&'static str, usize, usize, usize, usize, usize),
+}
+
+fn scopes(max_gates: usize) -> Vec<Scope> {
+    let mut v = Vec::new();
     for g in 0..=max_gates {
         for i in 0..=2usize {
             for l in 0..=(2 - i) {
                 if g == 3 && i + l > 1 {
                     continue;
                 }
-                enumerate_scope::<L>(&Scope { i, l, g }, tier, budget, report);
+                v.push(Scope { i, l, g });
+            }
+        }
+    }
+    v
+}
+
+fn units(tier: Tier) -> Vec<Unit> {
+    let mut u = vec![Unit::Deep];
+    let plan: Vec<(&'static str, usize)> = tier.pick(vec![("u32", 2), ("u8", 1)], vec![("u32", 3), ("u8", 2), ("usize", 2)]);
+    for (lit, max_gates) in plan {
+        u.push(Unit::Redef(lit));
+        for sc in scopes(max_gates) {
+            let n = scope_size(&sc);
+            let block = 16;
+            let mut s = 0;
+            while s < n {
+                u.push(Unit::Block(lit, sc.i, sc.l, sc.g, s, block.min(n - s)));
+                s += block;
+            }
+        }
+    }
+    u
+}
+
+fn run_unit(u: &Unit, tier: Tier, rep: &mut Report) {
+    match u {
+        Unit::Deep => deep_shapes(tier, rep),
+        Unit::Redef(lit) => match *lit {
+            "u8" => redefinitions::<u8>(rep),
+            "usize" => redefinitions::<usize>(rep),
+            _ => redefinitions::<u32>(rep),
+        },
+        Unit::Block(lit, i, l, g, s, n) => {
+            let sc = Scope { i: *i, l: *l, g: *g };
+            for idx in *s..*s + *n {
+                match *lit {
+                    "u8" => check_assignment::<u8>(&sc, tier, idx, rep),
+                    "usize" => check_assignment::<usize>(&sc, tier, idx, rep),
+                    _ => check_assignment::<u32>(&sc, tier, idx, rep),
+                }
             }
         }
     }
 }
 
 pub fn run(tier: Tier, report: &mut Report) {
-    let budget = Budget::new(tier.pick(40.0, 1800.0));
-    deep_shapes(tier, report);
-    run_lit::<u32>(tier, &budget, report, tier.pick(2, 3));
-    if tier == Tier::Thorough {
-        run_lit::<u8>(tier, &budget, report, 2);
-        run_lit::<usize>(tier, &budget, report, 2);
-    } else {
-        run_lit::<u8>(tier, &budget, report, 1);
+    let us = units(tier);
+    let secs = tier.pick(45.0, 1800.0);
+    let _ = Budget::new(secs);
+    if let Some(w) = mc_core::isolate::worker_spec() {
+        let deadline = std::time::Instant::now() + std::time::Duration::from_secs_f64(secs);
+        mc_core::isolate::run_worker(&w, us.len(), |i, rep| run_unit(&us[i], tier, rep), Some(deadline));
+    }
+    // renumbering a small graph takes microseconds: a worker whose unit does not finish within the
+    // stall limit, or that exhausts its address space, has hit non-termination / unbounded growth
+    let crashes = mc_core::isolate::run_parent(us.len(), mc_core::threads(), 1 << 20, tier.pick(20.0, 60.0), report);
+    for c in crashes {
+        report.violation("renumber/crash-or-hang", format!("unit {:?}: {} (renumbering did not terminate, exhausted memory or crashed)", us[c.unit], c.how), json!({"property": "C12", "unit": format!("{:?}", us[c.unit]), "note": "re-run ./check C12"}), c.unit as u64);
+    }
+    if report.caps.is_empty() {
+        report.completed.push(format!("{} units: deep shapes; per literal type the redefinition variants and every gate input assignment of every scope (inputs + latches <= 2, gates <= {}) x every root literal x root modes x gate orders x numberings x 8 option combinations; each unit in an isolated worker process", us.len(), tier.pick(2, 3)));
     }
     report.traces = report.evaluations;
     let g = G { max_var: 5, inputs: vec![2], latches: vec![(4, 9, None)], gates: vec![(6, 2, 5), (8, 6, 7)], outputs: vec![8], bad: vec![], constraints: vec![], fairness: vec![], justice: vec![] };
